@@ -202,7 +202,7 @@ def run(ctx):
     rng = ctx.rng
     n = (450 if ctx.quick else 3000) * (3 if ctx.search else 1)
     for _ in range(n):
-        a, o, t = gen_valid(rng, ctx.quick)
+        a, o, t = gen_valid(rng, ctx.quick, empty_p=0.04)
         do_case(ctx, {"ast": a, "stream": "valid"})
         m, op = mutate(rng, a)
         do_case(ctx, {"ast": m, "stream": "adversarial", "mut": op})
